@@ -1,5 +1,7 @@
-// T-gen extractor `vmflags` for property C07: injected into /repo/core/vm as zz_verif_dump_test.go with `go test -overlay`
-// (the repository is not modified). Dumps from the COMPILED program, per named instruction set and valid opcode:
+// T-gen extractor `vmflags` for property C07: injected into /repo/core/vm as zz_verif_dump_flags.go with `go build -overlay`
+// (the repository is not modified) and called by go/harness/cmd/c07dump. (Not a _test.go file: linking the core/vm test
+// binary takes minutes on every run, a cached `go build` of the small dump command seconds.)
+// Dumps from the COMPILED program, per named instruction set and valid opcode:
 // stack arity (recovered by probing validateStack with stacks of every size), the five flags, the names of the gas /
 // memory / execute functions (runtime.FuncForPC; closures by the name of their maker), the constant of constant gas
 // functions (by calling the closure); the two gas tables, the protocol constants the call machinery uses, the precompile
@@ -15,7 +17,6 @@ import (
 	"runtime"
 	"sort"
 	"strings"
-	"testing"
 
 	"gitlab.com/aquachain/aquachain/params"
 )
@@ -57,10 +58,12 @@ func vfFuncName(f interface{}) string {
 	return n
 }
 
+var vfStackBuf = make([]*big.Int, 1101)
+
 func vfProbeStack(op operation) (pops, pushes int) {
 	pops, maxOK := -1, -1
 	for n := 0; n <= 1100; n++ {
-		st := &Stack{data: make([]*big.Int, n)}
+		st := &Stack{data: vfStackBuf[:n]}
 		if op.validateStack(st) == nil {
 			if pops < 0 {
 				pops = n
@@ -108,10 +111,9 @@ func vfDumpSet(set [256]operation) []vfOp {
 	return out
 }
 
-func vfSame(a, b [256]operation) bool {
+func vfJSON(a [256]operation) string {
 	x, _ := json.Marshal(vfDumpSet(a))
-	y, _ := json.Marshal(vfDumpSet(b))
-	return string(x) == string(y)
+	return string(x)
 }
 
 func vfGasTable(gt params.GasTable) map[string]uint64 {
@@ -142,7 +144,14 @@ func vfConfigs() []struct {
 	}
 }
 
-func TestVerifDumpVmFlags(t *testing.T) {
+// VerifC07DumpJSON returns the dump as JSON.
+func VerifC07DumpJSON() (res string, rerr error) {
+	fatalf := func(format string, a ...interface{}) { panic(fmt.Errorf(format, a...)) }
+	defer func() {
+		if e := recover(); e != nil {
+			rerr = fmt.Errorf("%v", e)
+		}
+	}()
 	names := []string{"frontier", "homestead", "byzantium", "constantinople", "spring"}
 	vars := map[string][256]operation{
 		"frontier": frontierInstructionSet, "homestead": homesteadInstructionSet, "byzantium": byzantiumInstructionSet,
@@ -153,9 +162,11 @@ func TestVerifDumpVmFlags(t *testing.T) {
 		"constantinople": NewConstantinopleInstructionSet(), "spring": NewSpringInstructionSet(),
 	}
 	sets := map[string][]vfOp{}
+	setJSON := map[string]string{}
 	for _, n := range names {
-		if !vfSame(vars[n], ctors[n]) {
-			t.Fatalf("package variable %sInstructionSet differs from its constructor", n)
+		setJSON[n] = vfJSON(vars[n])
+		if setJSON[n] != vfJSON(ctors[n]) {
+			fatalf("package variable %sInstructionSet differs from its constructor", n)
 		}
 		sets[n] = vfDumpSet(vars[n])
 	}
@@ -173,7 +184,7 @@ func TestVerifDumpVmFlags(t *testing.T) {
 			// precompile addresses are small integers (checked)
 			for i := 0; i < 19; i++ {
 				if k[i] != 0 {
-					t.Fatalf("precompile address %x is not a small integer", k)
+					fatalf("precompile address %x is not a small integer", k)
 				}
 			}
 			out = append(out, int(k[19]))
@@ -205,10 +216,11 @@ func TestVerifDumpVmFlags(t *testing.T) {
 		o := cfgOut{Name: c.Name, Height: c.Height, Homestead: c.Cfg.IsHomestead(num), EIP150: c.Cfg.IsEIP150(num), EIP158: c.Cfg.IsEIP158(num),
 			Byzantium: evm.chainRules.IsByzantium}
 		if evm.chainRules.IsByzantium != c.Cfg.IsByzantium(num) {
-			t.Fatalf("chainRules.IsByzantium differs from ChainConfig.IsByzantium for %s", c.Name)
+			fatalf("chainRules.IsByzantium differs from ChainConfig.IsByzantium for %s", c.Name)
 		}
+		sel := vfJSON(evm.interpreter.cfg.JumpTable)
 		for _, n := range names {
-			if vfSame(evm.interpreter.cfg.JumpTable, vars[n]) {
+			if sel == setJSON[n] {
 				o.Sets = append(o.Sets, n)
 			}
 		}
@@ -230,7 +242,7 @@ func TestVerifDumpVmFlags(t *testing.T) {
 	}
 	b, err := json.Marshal(out)
 	if err != nil {
-		t.Fatal(err)
+		return "", err
 	}
-	fmt.Printf("VERIF-DUMP-BEGIN\n%s\nVERIF-DUMP-END\n", b)
+	return string(b), nil
 }
